@@ -1,4 +1,644 @@
-import RaptorModel.Model.Interp
+import RaptorModel.Lemmas.InterpLemmas
+import Mathlib.Tactic.LinearCombination
+import Mathlib.Algebra.Order.Field.Rat
+/-!
+# C12 — classical interpolation (direct, modified classical)
+
+For any coarse/fine splitting `states` the operators of `Model/Interp.lean`
+1. number the coarse points by an order-preserving bijection onto `0 .. nC-1` (`colToNew`);
+2. have exactly one unit entry per coarse point (`*_injection`);
+3. interpolate a fine point only from its strong coarse neighbours (`*_support`);
+4. reproduce the constant vector on a fine row of `A` with zero row sum whose denominators are
+   non-zero (`directRow_rowsum_one`, `modClassicalRow_rowsum_one`);
+5. have non-zero denominators under the M-matrix guard: positive diagonal stored first, non-positive
+   off-diagonals, a strong coarse neighbour with a negative value (`directRow_finite`,
+   `modClassicalRow_finite`), giving `*_rowsum_one_of_MMatrixRow` without denominator hypotheses;
+6. have `min A.length S.length` (direct) / `A.length` (modified classical) rows with all column
+   indices `< numCoarse states` (`direct_shape`, `modClassical_shape`).
+
+Algebraic statements need `[Field K] [LinearOrder K]` (the order only supplies the decidable tests
+of the model); order compatibility `[IsStrictOrderedRing K]` is used only for the M-matrix guard.
+`Lemmas/InterpLemmas.lean` names the intermediate quantities of the model (`strongC`, `sumStrongNeg`,
+`directDiag`, …, `mcCoarseSum`, `mcScaled`, `mcAdd`, `mcWeak`) verbatim and proves the normal forms
+`directRow_fine_eq`, `modClassicalRow_fine_eq`.
+-/
 namespace Raptor.C12
-theorem placeholder : (1 : Nat) = 1 := rfl
+open Raptor.Interp
+
+/-! ## 1. coarse numbering -/
+
+theorem colToNew_strictMono_on_C {states : List Int} {i j : Nat}
+    (hi : isC states i = true) (_hj : isC states j = true) (h : i < j) :
+    colToNew states i < colToNew states j := colToNew_lt_of_isC hi h
+
+theorem colToNew_lt_count {states : List Int} {i n : Nat} (hi : isC states i = true) (h : i < n) :
+    colToNew states i < ((List.range n).filter (isC states)).length := colToNew_lt_of_isC hi h
+
+/-- every coarse index `c < colToNew states n` is the number of a coarse point `j < n` -/
+theorem colToNew_surj {states : List Int} {n c : Nat} (h : c < colToNew states n) :
+    ∃ j, j < n ∧ isC states j = true ∧ colToNew states j = c := by
+  induction n with
+  | zero => rw [colToNew_zero] at h; exact absurd h (Nat.not_lt_zero _)
+  | succ n ih =>
+    rw [colToNew_succ] at h
+    by_cases hc : c < colToNew states n
+    · obtain ⟨j, hj, hC, he⟩ := ih hc
+      exact ⟨j, Nat.lt_succ_of_lt hj, hC, he⟩
+    · cases hn : isC states n with
+      | false => rw [hn] at h; simp at h; exact absurd h hc
+      | true =>
+        rw [hn] at h; simp at h
+        exact ⟨n, Nat.lt_succ_self n, hn, by omega⟩
+
+/-- `colToNew` is injective on coarse points -/
+theorem colToNew_inj_on_C {states : List Int} {i j : Nat}
+    (hi : isC states i = true) (hj : isC states j = true) (h : colToNew states i = colToNew states j) :
+    i = j := by
+  rcases Nat.lt_trichotomy i j with hlt | heq | hgt
+  · exact absurd h (Nat.ne_of_lt (colToNew_lt_of_isC hi hlt))
+  · exact heq
+  · exact absurd h.symm (Nat.ne_of_lt (colToNew_lt_of_isC hj hgt))
+
+/-! ## 2. injection -/
+section Injection
+variable {K : Type} [Field K] [LinearOrder K]
+
+theorem directRow_injection {states : List Int} {i : Nat} (arow srow : List (Nat × K))
+    (h : isC states i = true) : directRow states i arow srow = [(colToNew states i, 1)] := by
+  unfold directRow; rw [if_pos h]
+
+theorem modClassicalRow_injection (tiny : K → Bool) {states : List Int} (allParts : List (Parts K)) {i : Nat}
+    (h : isC states i = true) : modClassicalRow tiny states allParts i = [(colToNew states i, 1)] := by
+  unfold modClassicalRow; rw [if_pos h]
+
+theorem direct_getElem? (states : List Int) (A S : List (List (Nat × K))) {i : Nat}
+    (hA : i < A.length) (hS : i < S.length) :
+    (direct states A S)[i]? = some (directRow states i A[i] S[i]) := by
+  simp [direct, hA, hS]
+
+theorem modClassical_getElem? (tiny : K → Bool) (states : List Int) (A S : List (List (Nat × K))) {i : Nat}
+    (hA : i < A.length) :
+    (modClassical tiny states A S)[i]? = some (modClassicalRow tiny states
+      ((A.zip S).zipIdx.map fun (r, i) => parts states i r.1 r.2) i) := by
+  simp [modClassical, hA]
+
+theorem allParts_getElem? (states : List Int) (A S : List (List (Nat × K))) {i : Nat}
+    (hA : i < A.length) (hS : i < S.length) :
+    ((A.zip S).zipIdx.map fun (r, i) => parts states i r.1 r.2)[i]?
+      = some (parts states i A[i] S[i]) := by
+  simp [hA, hS]
+
+theorem direct_injection (states : List Int) (A S : List (List (Nat × K))) {i : Nat}
+    (hA : i < A.length) (hS : i < S.length) (h : isC states i = true) :
+    (direct states A S)[i]? = some [(colToNew states i, 1)] := by
+  rw [direct_getElem? states A S hA hS, directRow_injection _ _ h]
+
+theorem modClassical_injection (tiny : K → Bool) (states : List Int) (A S : List (List (Nat × K))) {i : Nat}
+    (hA : i < A.length) (h : isC states i = true) :
+    (modClassical tiny states A S)[i]? = some [(colToNew states i, 1)] := by
+  rw [modClassical_getElem? tiny states A S hA, modClassicalRow_injection _ _ h]
+
+end Injection
+
+/-! ## 3. support -/
+section Support
+variable {K : Type} [Field K] [LinearOrder K]
+
+omit [LinearOrder K] in
+theorem mem_strongC {states : List Int} {i : Nat} {arow srow : List (Nat × K)} {e : Nat × K}
+    (he : e ∈ strongC states i arow srow) :
+    (∃ v, (e.1, v) ∈ offDiag i srow) ∧ isC states e.1 = true ∧ e.2 = aVal arow e.1 := by
+  unfold strongC at he
+  simp only [List.mem_map, List.mem_filter] at he
+  obtain ⟨e', ⟨hmem, hc⟩, rfl⟩ := he
+  exact ⟨⟨e'.2, hmem⟩, hc, rfl⟩
+
+/-- a fine row of direct interpolation only uses strong coarse neighbours -/
+theorem directRow_support {states : List Int} {i : Nat} (arow srow : List (Nat × K))
+    (h : isC states i = false) {c : Nat} {w : K} (hcw : (c, w) ∈ directRow states i arow srow) :
+    ∃ j v, (j, v) ∈ offDiag i srow ∧ isC states j = true ∧ c = colToNew states j := by
+  rw [directRow_fine_eq arow srow h] at hcw
+  simp only [List.mem_map, Prod.mk.injEq] at hcw
+  obtain ⟨e, he, hc, _⟩ := hcw
+  obtain ⟨⟨v, hv⟩, hC, _⟩ := mem_strongC he
+  exact ⟨e.1, v, hv, hC, hc.symm⟩
+
+theorem mem_parts_ss {states : List Int} {i : Nat} {arow srow : List (Nat × K)} {e : Nat × K}
+    (he : e ∈ (parts states i arow srow).ss) :
+    e ∈ arow.drop 1 ∧ (∃ v, (e.1, v) ∈ offDiag i srow) ∧ isC states e.1 = true := by
+  unfold parts at he
+  simp only [List.mem_filter, List.contains_eq_mem, List.mem_map, decide_eq_true_eq] at he
+  obtain ⟨⟨hmem, e', he', h1⟩, hc⟩ := he
+  exact ⟨hmem, ⟨e'.2, by rw [← h1]; exact he'⟩, hc⟩
+
+theorem modClassicalRow_support_parts (tiny : K → Bool) {states : List Int} (allParts : List (Parts K))
+    {i : Nat} {p : Parts K} (hp : allParts[i]? = some p)
+    (h : isC states i = false) {c : Nat} {w : K} (hcw : (c, w) ∈ modClassicalRow tiny states allParts i) :
+    ∃ e ∈ p.ss, c = colToNew states e.1 := by
+  unfold modClassicalRow at hcw
+  rw [if_neg (by simp [h])] at hcw
+  simp only [hp, List.mem_map, Prod.mk.injEq] at hcw
+  obtain ⟨e, he, hc, _⟩ := hcw
+  exact ⟨e, he, hc.symm⟩
+
+/-- a fine row of modified classical interpolation only uses strong coarse neighbours
+    (that are stored in the row of `A`) -/
+theorem modClassicalRow_support (tiny : K → Bool) {states : List Int} (allParts : List (Parts K))
+    {i : Nat} (arow srow : List (Nat × K)) (hp : allParts[i]? = some (parts states i arow srow))
+    (h : isC states i = false) {c : Nat} {w : K} (hcw : (c, w) ∈ modClassicalRow tiny states allParts i) :
+    ∃ j v, (j, v) ∈ offDiag i srow ∧ isC states j = true ∧ c = colToNew states j
+      ∧ ∃ a, (j, a) ∈ arow.drop 1 := by
+  obtain ⟨e, he, hc⟩ := modClassicalRow_support_parts tiny allParts hp h hcw
+  obtain ⟨hmem, ⟨v, hv⟩, hC⟩ := mem_parts_ss he
+  exact ⟨e.1, v, hv, hC, hc, e.2, hmem⟩
+
+theorem direct_support (states : List Int) (A S : List (List (Nat × K))) {i : Nat}
+    (hA : i < A.length) (hS : i < S.length) (h : isC states i = false) {row : List (Nat × K)}
+    (hrow : (direct states A S)[i]? = some row) {c : Nat} {w : K} (hcw : (c, w) ∈ row) :
+    ∃ j v, (j, v) ∈ offDiag i S[i] ∧ isC states j = true ∧ c = colToNew states j := by
+  rw [direct_getElem? states A S hA hS] at hrow
+  cases hrow
+  exact directRow_support _ _ h hcw
+
+theorem modClassical_support (tiny : K → Bool) (states : List Int) (A S : List (List (Nat × K))) {i : Nat}
+    (hA : i < A.length) (hS : i < S.length) (h : isC states i = false) {row : List (Nat × K)}
+    (hrow : (modClassical tiny states A S)[i]? = some row) {c : Nat} {w : K} (hcw : (c, w) ∈ row) :
+    ∃ j v, (j, v) ∈ offDiag i S[i] ∧ isC states j = true ∧ c = colToNew states j
+      ∧ ∃ a, (j, a) ∈ A[i].drop 1 := by
+  rw [modClassical_getElem? tiny states A S hA] at hrow
+  cases hrow
+  exact modClassicalRow_support tiny _ _ _ (allParts_getElem? states A S hA hS) h hcw
+
+end Support
+
+/-! ## 4. direct interpolation reproduces constants on zero-row-sum rows -/
+section DirectRowSum
+variable {K : Type} [Field K] [LinearOrder K]
+
+/-- **Row sum of a fine row of direct interpolation.**  Hypotheses:
+* `i` is not coarse;
+* the row of `A` (first entry = diagonal, `diagVal arow`; rest = `arow.drop 1`) sums to zero;
+* the two denominators are non-zero: `sumStrongNeg` (sum of the negative values of `A` at strong
+  coarse columns) and `directDiag` (`d + sumAllPos` if there is no positive strong coarse value,
+  else `d`).
+No pattern hypothesis (`S ⊆ A`, distinct columns) is needed: the weights of the strong coarse
+columns are rescaled by the *full* negative/positive off-diagonal sums whatever `aVal` returns. -/
+theorem directRow_rowsum_one_gen {states : List Int} {i : Nat} (arow srow : List (Nat × K))
+    (h : isC states i = false)
+    (hsum : diagVal arow + ((arow.drop 1).map (·.2)).sum = 0)
+    (hneg : sumStrongNeg states i arow srow ≠ 0)
+    (hdiag : directDiag states i arow srow ≠ 0) :
+    lsumK ((directRow states i arow srow).map (·.2)) = 1 := by
+  rw [directRow_weights_sum arow srow h]
+  have hs := sumAll_split arow
+  rw [← hs] at hsum
+  unfold directNegCoeff directPosCoeff
+  unfold directDiag at hdiag ⊢
+  by_cases hp : sumStrongPos states i arow srow = 0
+  · rw [if_pos hp] at hdiag
+    simp only [hp, if_true, mul_zero, add_zero]
+    field_simp
+    linear_combination -hsum
+  · rw [if_neg hp] at hdiag
+    simp only [hp, if_false]
+    field_simp
+    linear_combination -hsum
+
+/-- the same with the row written `(i, d) :: offs` -/
+theorem directRow_rowsum_one {states : List Int} {i : Nat} (d : K) (offs srow : List (Nat × K))
+    (h : isC states i = false)
+    (hsum : d + lsumK (offs.map (·.2)) = 0)
+    (hneg : sumStrongNeg states i ((i, d) :: offs) srow ≠ 0)
+    (hdiag : directDiag states i ((i, d) :: offs) srow ≠ 0) :
+    lsumK ((directRow states i ((i, d) :: offs) srow).map (·.2)) = 1 := by
+  apply directRow_rowsum_one_gen _ _ h _ hneg hdiag
+  rw [lsumK_eq_sum] at hsum
+  simpa [diagVal] using hsum
+
+end DirectRowSum
+
+/-! ## 5. finiteness: the denominators are non-zero under the M-matrix guard -/
+section DirectFinite
+variable {K : Type} [Field K] [LinearOrder K] [IsStrictOrderedRing K]
+
+/-- row `i` is stored diagonal first, with a positive diagonal and non-positive off-diagonals -/
+def MMatrixRow (i : Nat) (arow : List (Nat × K)) : Prop :=
+  ∃ d offs, arow = (i, d) :: offs ∧ 0 < d ∧ ∀ e ∈ offs, e.2 ≤ 0
+
+/-- row `i` has a strong coarse neighbour at which `A` is negative -/
+def HasStrongNegC (states : List Int) (i : Nat) (arow srow : List (Nat × K)) : Prop :=
+  ∃ j v, (j, v) ∈ offDiag i srow ∧ isC states j = true ∧ aVal arow j < 0
+
+omit [IsStrictOrderedRing K] in
+theorem strongC_val_nonpos {states : List Int} {i : Nat} {d : K} {offs srow : List (Nat × K)}
+    (h : isC states i = false) (hoff : ∀ e ∈ offs, e.2 ≤ 0) {e : Nat × K}
+    (he : e ∈ strongC states i ((i, d) :: offs) srow) : e.2 ≤ 0 := by
+  obtain ⟨_, hC, hv⟩ := mem_strongC he
+  have hne : i ≠ e.1 := by
+    intro heq; rw [← heq, h] at hC; exact Bool.false_ne_true hC
+  rw [hv, aVal_cons_ne d offs hne]
+  rcases aVal_eq_zero_or_mem offs e.1 with h0 | hm
+  · exact le_of_eq h0
+  · exact hoff _ hm
+
+theorem directRow_finite {states : List Int} {i : Nat} (d : K) (offs srow : List (Nat × K))
+    (h : isC states i = false) (hd : 0 < d) (hoff : ∀ e ∈ offs, e.2 ≤ 0)
+    (hex : HasStrongNegC states i ((i, d) :: offs) srow) :
+    sumStrongNeg states i ((i, d) :: offs) srow < 0
+    ∧ sumStrongPos states i ((i, d) :: offs) srow = 0
+    ∧ sumAllPos ((i, d) :: offs) = 0
+    ∧ directDiag states i ((i, d) :: offs) srow = d
+    ∧ 0 < directDiag states i ((i, d) :: offs) srow := by
+  have hpos : sumStrongPos states i ((i, d) :: offs) srow = 0 := by
+    unfold sumStrongPos
+    rw [lsumK_eq_sum]
+    apply list_sum_eq_zero'
+    intro x hx
+    simp only [List.mem_map, List.mem_filter, Bool.not_eq_true', decide_eq_false_iff_not, not_lt] at hx
+    obtain ⟨e, ⟨he, hge⟩, rfl⟩ := hx
+    exact le_antisymm (strongC_val_nonpos h hoff he) hge
+  have hall : sumAllPos ((i, d) :: offs) = 0 := by
+    unfold sumAllPos
+    rw [lsumK_eq_sum]
+    apply list_sum_eq_zero'
+    intro x hx
+    simp only [List.drop_one, List.tail_cons, List.mem_filter, List.mem_map, Bool.not_eq_true',
+      decide_eq_false_iff_not, not_lt] at hx
+    obtain ⟨⟨e, he, rfl⟩, hge⟩ := hx
+    exact le_antisymm (hoff e he) hge
+  have hdg : directDiag states i ((i, d) :: offs) srow = d := by
+    unfold directDiag
+    rw [if_pos hpos, hall, add_zero]
+    rfl
+  refine ⟨?_, hpos, hall, hdg, by rw [hdg]; exact hd⟩
+  · unfold sumStrongNeg
+    rw [lsumK_eq_sum]
+    apply list_sum_neg
+    · intro x hx
+      simp only [List.mem_map, List.mem_filter, decide_eq_true_eq] at hx
+      obtain ⟨e, ⟨_, hlt⟩, rfl⟩ := hx
+      exact hlt
+    · obtain ⟨j, v, hjv, hC, hlt⟩ := hex
+      have hmem : (j, aVal ((i, d) :: offs) j) ∈ strongC states i ((i, d) :: offs) srow := by
+        unfold strongC
+        simp only [List.mem_map, List.mem_filter]
+        exact ⟨(j, v), ⟨hjv, hC⟩, rfl⟩
+      intro hnil
+      have : aVal ((i, d) :: offs) j ∈
+          ((strongC states i ((i, d) :: offs) srow).filter fun e => decide (e.2 < 0)).map (·.2) := by
+        simp only [List.mem_map, List.mem_filter, decide_eq_true_eq]
+        exact ⟨_, ⟨hmem, hlt⟩, rfl⟩
+      rw [hnil] at this
+      exact List.not_mem_nil this
+
+/-- **C12, direct interpolation**: on an M-matrix row with zero row sum and a strong negative
+    coarse neighbour, the denominators are non-zero and the weights sum to one. -/
+theorem directRow_rowsum_one_of_MMatrixRow {states : List Int} {i : Nat} (arow srow : List (Nat × K))
+    (h : isC states i = false) (hM : MMatrixRow i arow)
+    (hsum : lsumK (arow.map (·.2)) = 0)
+    (hex : HasStrongNegC states i arow srow) :
+    lsumK ((directRow states i arow srow).map (·.2)) = 1 := by
+  obtain ⟨d, offs, rfl, hd, hoff⟩ := hM
+  obtain ⟨hneg, _, _, hdiag, _⟩ := directRow_finite d offs srow h hd hoff hex
+  apply directRow_rowsum_one d offs srow h _ (ne_of_lt hneg) (by rw [hdiag]; exact ne_of_gt hd)
+  rw [lsumK_eq_sum] at hsum ⊢
+  simpa using hsum
+
+end DirectFinite
+
+/-! ## 6. modified classical interpolation reproduces constants on zero-row-sum rows -/
+section ModClassicalRowSum
+variable {K : Type} [Field K] [LinearOrder K]
+
+/-- the strong coarse columns of a row with pairwise distinct columns are pairwise distinct -/
+theorem parts_ss_nodup (states : List Int) (i : Nat) (arow srow : List (Nat × K))
+    (hnd : (arow.map (·.1)).Nodup) : ((parts states i arow srow).ss.map (·.1)).Nodup := by
+  refine List.Nodup.sublist ?_ hnd
+  unfold parts
+  exact (((List.filter_sublist).trans (List.filter_sublist)).trans (List.drop_sublist 1 arow)).map _
+
+/-- if every strong neighbour is coarse or fine, the three parts of the row add up to the row sum -/
+theorem parts_sum (states : List Int) (i : Nat) (d : K) (offs srow : List (Nat × K))
+    (hCF : ∀ e ∈ offDiag i srow, isC states e.1 = true ∨ isF states e.1 = true) :
+    ((parts states i ((i, d) :: offs) srow).ss.map (·.2)).sum
+      + ((parts states i ((i, d) :: offs) srow).su.map (·.2)).sum
+      + (parts states i ((i, d) :: offs) srow).weak = d + (offs.map (·.2)).sum := by
+  unfold parts
+  simp only [List.drop_succ_cons, List.drop_zero, diagVal, List.head?_cons, Option.map_some,
+    Option.getD_some, foldl_add_eq]
+  have hsu : (offs.filter fun e => ((offDiag i srow).map (·.1)).contains e.1).filter (fun e => isF states e.1)
+      = (offs.filter fun e => ((offDiag i srow).map (·.1)).contains e.1).filter
+          (fun e => !isC states e.1) := by
+    apply List.filter_congr
+    intro e he
+    simp only [List.mem_filter, List.contains_eq_mem, List.mem_map, decide_eq_true_eq] at he
+    obtain ⟨_, e', he', h1⟩ := he
+    have := hCF e' he'
+    rw [h1] at this
+    rcases this with hc | hf
+    · rw [hc, isC_isF_excl hc]; rfl
+    · rw [hf]
+      cases hc : isC states e.1 with
+      | false => rfl
+      | true => rw [isC_isF_excl hc] at hf; exact Bool.noConfusion hf
+  rw [hsu]
+  have h1 := sum_filter_split_bool (fun e : Nat × K => isC states e.1) (·.2)
+    (offs.filter fun e => ((offDiag i srow).map (·.1)).contains e.1)
+  have h2 := sum_filter_split_bool (fun e : Nat × K => ((offDiag i srow).map (·.1)).contains e.1) (·.2) offs
+  linear_combination h1 + h2
+
+/-- **Row sum of a fine row of modified classical interpolation.**  Hypotheses:
+* `i` is not coarse and `allParts[i]` is the split of the row `(i, d) :: offs` of `A` (diagonal first);
+* the row of `A` sums to zero;
+* the columns of the row of `A` are pairwise distinct (only used for its strong coarse columns);
+* every strong neighbour of `i` is coarse or fine (no isolated labels);
+* `tiny 0 = true` (a non-tiny coarse sum is non-zero: true of `|x| < tol` and of exact `x = 0`);
+* the final denominator `mcWeak` (`= a_ii + Σ weak + Σ_{k strong fine, cs_k tiny} a_ik`) is non-zero.
+Nothing is assumed about the other rows of `allParts`. -/
+theorem modClassicalRow_rowsum_one (tiny : K → Bool) {states : List Int} (allParts : List (Parts K))
+    {i : Nat} (d : K) (offs srow : List (Nat × K))
+    (hp : allParts[i]? = some (parts states i ((i, d) :: offs) srow))
+    (h : isC states i = false)
+    (htiny : tiny 0 = true)
+    (hnd : (((i, d) :: offs).map (·.1)).Nodup)
+    (hCF : ∀ e ∈ offDiag i srow, isC states e.1 = true ∨ isF states e.1 = true)
+    (hsum : d + lsumK (offs.map (·.2)) = 0)
+    (hweak : mcWeak tiny allParts (parts states i ((i, d) :: offs) srow) ≠ 0) :
+    lsumK ((modClassicalRow tiny states allParts i).map (·.2)) = 1 := by
+  apply modClassicalRow_weights_sum_one tiny allParts hp h htiny (parts_ss_nodup _ _ _ _ hnd) _ hweak
+  rw [parts_sum states i d offs srow hCF, ← lsumK_eq_sum]
+  exact hsum
+
+/-- the same for row `i` of `modClassical` -/
+theorem modClassical_rowsum_one (tiny : K → Bool) (states : List Int) (A S : List (List (Nat × K)))
+    {i : Nat} (hA : i < A.length) (hS : i < S.length) (d : K) (offs : List (Nat × K))
+    (hrow : A[i] = (i, d) :: offs)
+    (h : isC states i = false)
+    (htiny : tiny 0 = true)
+    (hnd : (A[i].map (·.1)).Nodup)
+    (hCF : ∀ e ∈ offDiag i S[i], isC states e.1 = true ∨ isF states e.1 = true)
+    (hsum : lsumK (A[i].map (·.2)) = 0)
+    (hweak : mcWeak tiny ((A.zip S).zipIdx.map fun (r, i) => parts states i r.1 r.2)
+      (parts states i A[i] S[i]) ≠ 0) :
+    ∃ row, (modClassical tiny states A S)[i]? = some row ∧ lsumK (row.map (·.2)) = 1 := by
+  refine ⟨_, modClassical_getElem? tiny states A S hA, ?_⟩
+  have hp := allParts_getElem? states A S hA hS
+  rw [hrow] at hp hnd hsum hweak
+  refine modClassicalRow_rowsum_one tiny _ d offs S[i] hp h htiny hnd hCF ?_ hweak
+  rw [lsumK_eq_sum] at hsum ⊢
+  simpa using hsum
+
+end ModClassicalRowSum
+
+/-! ## 6b. modified classical: the denominator is non-zero under the M-matrix guard -/
+section ModClassicalFinite
+variable {K : Type} [Field K] [LinearOrder K] [IsStrictOrderedRing K]
+
+omit [IsStrictOrderedRing K] in
+theorem mem_parts_su {states : List Int} {i : Nat} {arow srow : List (Nat × K)} {e : Nat × K}
+    (he : e ∈ (parts states i arow srow).su) : e ∈ arow.drop 1 := by
+  unfold parts at he
+  simp only [List.mem_filter] at he
+  exact he.1.1
+
+omit [IsStrictOrderedRing K] in
+/-- a strong coarse neighbour with a negative value of `A` is a (stored) negative entry of `SS` -/
+theorem exists_neg_ss {states : List Int} {i : Nat} {d : K} {offs srow : List (Nat × K)}
+    (h : isC states i = false) (hex : HasStrongNegC states i ((i, d) :: offs) srow) :
+    ∃ e ∈ (parts states i ((i, d) :: offs) srow).ss, e.2 < 0 := by
+  obtain ⟨j, v, hjv, hC, hlt⟩ := hex
+  have hne : i ≠ j := by
+    intro heq; rw [← heq, h] at hC; exact Bool.false_ne_true hC
+  rw [aVal_cons_ne d offs hne] at hlt
+  rcases aVal_eq_zero_or_mem offs j with h0 | hm
+  · rw [h0] at hlt; exact absurd hlt (lt_irrefl _)
+  · refine ⟨(j, aVal offs j), ?_, hlt⟩
+    unfold parts
+    simp only [List.drop_succ_cons, List.drop_zero, List.mem_filter, List.contains_eq_mem, List.mem_map,
+      decide_eq_true_eq]
+    exact ⟨⟨hm, (j, v), hjv, rfl⟩, hC⟩
+
+/-- under the M-matrix guard (non-positive off-diagonals, zero row sum, a strong negative coarse
+    neighbour, strong neighbours coarse or fine) the final denominator of `modClassicalRow` is
+    positive, whatever `tiny` and the other rows are -/
+theorem modClassicalRow_finite (tiny : K → Bool) {states : List Int} (allParts : List (Parts K))
+    {i : Nat} (d : K) (offs srow : List (Nat × K))
+    (h : isC states i = false) (hoff : ∀ e ∈ offs, e.2 ≤ 0)
+    (hCF : ∀ e ∈ offDiag i srow, isC states e.1 = true ∨ isF states e.1 = true)
+    (hsum : d + lsumK (offs.map (·.2)) = 0)
+    (hex : HasStrongNegC states i ((i, d) :: offs) srow) :
+    0 < mcWeak tiny allParts (parts states i ((i, d) :: offs) srow) := by
+  rw [mcWeak_eq]
+  have hps := parts_sum states i d offs srow hCF
+  rw [lsumK_eq_sum] at hsum
+  have hsplit := sum_filter_split_bool
+    (fun e : Nat × K => tiny (mcCoarseSum allParts (parts states i ((i, d) :: offs) srow) e.1)) (·.2)
+    (parts states i ((i, d) :: offs) srow).su
+  have hSS : ((parts states i ((i, d) :: offs) srow).ss.map (·.2)).sum < 0 := by
+    apply list_sum_neg_of_exists
+    · intro x hx
+      rw [List.mem_map] at hx
+      obtain ⟨e, he, rfl⟩ := hx
+      exact hoff e (by simpa using (mem_parts_ss he).1)
+    · obtain ⟨e, he, hlt⟩ := exists_neg_ss h hex
+      exact ⟨e.2, List.mem_map_of_mem he, hlt⟩
+  have hNT : (((parts states i ((i, d) :: offs) srow).su.filter fun e =>
+      !tiny (mcCoarseSum allParts (parts states i ((i, d) :: offs) srow) e.1)).map (·.2)).sum ≤ 0 := by
+    apply list_sum_nonpos
+    intro x hx
+    simp only [List.mem_map, List.mem_filter] at hx
+    obtain ⟨e, ⟨he, _⟩, rfl⟩ := hx
+    exact hoff e (by simpa using mem_parts_su he)
+  linarith
+
+/-- **C12, modified classical interpolation**: on an M-matrix row (diagonal first, distinct columns)
+    with zero row sum, a strong negative coarse neighbour and only coarse/fine strong neighbours, the
+    weights are finite (positive denominator) and sum to one. -/
+theorem modClassicalRow_rowsum_one_of_MMatrixRow (tiny : K → Bool) {states : List Int}
+    (allParts : List (Parts K)) {i : Nat} (arow srow : List (Nat × K))
+    (hp : allParts[i]? = some (parts states i arow srow))
+    (h : isC states i = false) (htiny : tiny 0 = true)
+    (hM : MMatrixRow i arow) (hnd : (arow.map (·.1)).Nodup)
+    (hCF : ∀ e ∈ offDiag i srow, isC states e.1 = true ∨ isF states e.1 = true)
+    (hsum : lsumK (arow.map (·.2)) = 0)
+    (hex : HasStrongNegC states i arow srow) :
+    lsumK ((modClassicalRow tiny states allParts i).map (·.2)) = 1 := by
+  obtain ⟨d, offs, rfl, _, hoff⟩ := hM
+  have hsum' : d + lsumK (offs.map (·.2)) = 0 := by
+    rw [lsumK_eq_sum] at hsum ⊢
+    simpa using hsum
+  exact modClassicalRow_rowsum_one tiny allParts d offs srow hp h htiny hnd hCF hsum'
+    (ne_of_gt (modClassicalRow_finite tiny allParts d offs srow h hoff hCF hsum' hex))
+
+end ModClassicalFinite
+
+/-! ## 7. shape: number of rows, column range -/
+section Shape
+variable {K : Type} [Field K] [LinearOrder K]
+
+theorem direct_length (states : List Int) (A S : List (List (Nat × K))) :
+    (direct states A S).length = min A.length S.length := by
+  simp [direct]
+
+theorem modClassical_length (tiny : K → Bool) (states : List Int) (A S : List (List (Nat × K))) :
+    (modClassical tiny states A S).length = A.length := by
+  simp [modClassical]
+
+/-- number of coarse points -/
+def numCoarse (states : List Int) : Nat := colToNew states states.length
+
+theorem numCoarse_eq_count (states : List Int) {n : Nat} (h : states.length ≤ n) :
+    ((List.range n).filter (isC states)).length = numCoarse states :=
+  colToNew_eq_of_ge states h
+
+theorem colToNew_lt_numCoarse {states : List Int} {j : Nat} (h : isC states j = true) :
+    colToNew states j < numCoarse states :=
+  colToNew_lt_of_isC h (isC_lt_length h)
+
+theorem directRow_col_lt (states : List Int) (i : Nat) (arow srow : List (Nat × K)) :
+    ∀ e ∈ directRow states i arow srow, e.1 < numCoarse states := by
+  intro e he
+  cases h : isC states i with
+  | true =>
+    rw [directRow_injection arow srow h, List.mem_singleton] at he
+    rw [he]; exact colToNew_lt_numCoarse h
+  | false =>
+    obtain ⟨j, _, _, hC, hc⟩ := directRow_support (c := e.1) (w := e.2) arow srow h he
+    rw [hc]; exact colToNew_lt_numCoarse hC
+
+/-- every column index of `direct` is a coarse index (`< number of coarse points`) -/
+theorem direct_col_lt (states : List Int) (A S : List (List (Nat × K))) :
+    ∀ row ∈ direct states A S, ∀ e ∈ row, e.1 < numCoarse states := by
+  intro row hrow
+  unfold direct at hrow
+  rw [List.mem_map] at hrow
+  obtain ⟨⟨r, i⟩, _, rfl⟩ := hrow
+  exact directRow_col_lt states i r.1 r.2
+
+theorem modClassicalRow_col_lt (tiny : K → Bool) (states : List Int) (allParts : List (Parts K))
+    (hss : ∀ p ∈ allParts, ∀ e ∈ p.ss, isC states e.1 = true) (i : Nat) :
+    ∀ e ∈ modClassicalRow tiny states allParts i, e.1 < numCoarse states := by
+  intro e he
+  cases h : isC states i with
+  | true =>
+    rw [modClassicalRow_injection tiny allParts h, List.mem_singleton] at he
+    rw [he]; exact colToNew_lt_numCoarse h
+  | false =>
+    cases hp : allParts[i]? with
+    | none =>
+      unfold modClassicalRow at he
+      rw [if_neg (by simp [h])] at he
+      simp [hp] at he
+    | some p =>
+      obtain ⟨e', he', hc⟩ := modClassicalRow_support_parts (c := e.1) (w := e.2) tiny allParts hp h he
+      rw [hc]; exact colToNew_lt_numCoarse (hss p (List.mem_of_getElem? hp) e' he')
+
+theorem modClassical_col_lt (tiny : K → Bool) (states : List Int) (A S : List (List (Nat × K))) :
+    ∀ row ∈ modClassical tiny states A S, ∀ e ∈ row, e.1 < numCoarse states := by
+  intro row hrow
+  unfold modClassical at hrow
+  simp only [List.mem_map] at hrow
+  obtain ⟨i, _, rfl⟩ := hrow
+  apply modClassicalRow_col_lt
+  intro p hp e he
+  rw [List.mem_map] at hp
+  obtain ⟨⟨r, k⟩, _, rfl⟩ := hp
+  exact (mem_parts_ss he).2.2
+
+/-- `direct` has one row per row of `A` (and `S`), with coarse column indices -/
+theorem direct_shape (states : List Int) (A S : List (List (Nat × K))) :
+    (direct states A S).length = min A.length S.length
+    ∧ ∀ row ∈ direct states A S, ∀ e ∈ row, e.1 < numCoarse states :=
+  ⟨direct_length states A S, direct_col_lt states A S⟩
+
+theorem modClassical_shape (tiny : K → Bool) (states : List Int) (A S : List (List (Nat × K))) :
+    (modClassical tiny states A S).length = A.length
+    ∧ ∀ row ∈ modClassical tiny states A S, ∀ e ∈ row, e.1 < numCoarse states :=
+  ⟨modClassical_length tiny states A S, modClassical_col_lt tiny states A S⟩
+
+end Shape
+
+/-! ## the matrix-level statements of the constants property -/
+section Lifted
+variable {K : Type} [Field K] [LinearOrder K] [IsStrictOrderedRing K]
+
+theorem direct_rowsum_one_of_MMatrixRow (states : List Int) (A S : List (List (Nat × K))) {i : Nat}
+    (hA : i < A.length) (hS : i < S.length) (h : isC states i = false)
+    (hM : MMatrixRow i A[i]) (hsum : lsumK (A[i].map (·.2)) = 0)
+    (hex : HasStrongNegC states i A[i] S[i]) :
+    ∃ row, (direct states A S)[i]? = some row ∧ lsumK (row.map (·.2)) = 1 :=
+  ⟨_, direct_getElem? states A S hA hS, directRow_rowsum_one_of_MMatrixRow _ _ h hM hsum hex⟩
+
+theorem modClassical_rowsum_one_of_MMatrixRow (tiny : K → Bool) (states : List Int)
+    (A S : List (List (Nat × K))) {i : Nat}
+    (hA : i < A.length) (hS : i < S.length) (h : isC states i = false) (htiny : tiny 0 = true)
+    (hM : MMatrixRow i A[i]) (hnd : (A[i].map (·.1)).Nodup)
+    (hCF : ∀ e ∈ offDiag i S[i], isC states e.1 = true ∨ isF states e.1 = true)
+    (hsum : lsumK (A[i].map (·.2)) = 0)
+    (hex : HasStrongNegC states i A[i] S[i]) :
+    ∃ row, (modClassical tiny states A S)[i]? = some row ∧ lsumK (row.map (·.2)) = 1 :=
+  ⟨_, modClassical_getElem? tiny states A S hA,
+    modClassicalRow_rowsum_one_of_MMatrixRow tiny _ _ _ (allParts_getElem? states A S hA hS) h htiny
+      hM hnd hCF hsum hex⟩
+
+end Lifted
+
+/-! ## examples: the 1-D Laplacian with Neumann ends (4×4 M-matrix, zero row sums), `S = A` -/
+section Examples
+
+def A4 : List (List (Nat × ℚ)) :=
+  [[(0, 1), (1, -1)], [(1, 2), (0, -1), (2, -1)], [(2, 2), (1, -1), (3, -1)], [(3, 1), (2, -1)]]
+/-- exact arithmetic: `tiny x ↔ x = 0` -/
+def tinyQ : ℚ → Bool := fun x => decide (x = 0)
+
+example : direct [1, 0, 1, 0] A4 A4 = [[(0, 1)], [(0, 1/2), (1, 1/2)], [(1, 1)], [(1, 1)]] := by
+  decide +kernel
+example : modClassical tinyQ [1, 0, 1, 0] A4 A4
+    = [[(0, 1)], [(0, 1/2), (1, 1/2)], [(1, 1)], [(1, 1)]] := by decide +kernel
+example : direct [1, 0, 0, 1] A4 A4 = [[(0, 1)], [(0, 1)], [(1, 1)], [(1, 1)]] := by decide +kernel
+example : modClassical tinyQ [1, 0, 0, 1] A4 A4 = [[(0, 1)], [(0, 1)], [(1, 1)], [(1, 1)]] := by
+  decide +kernel
+example : (direct [1, 0, 1, 0] A4 A4).map (fun r => lsumK (r.map (·.2))) = [1, 1, 1, 1] := by
+  decide +kernel
+example : (modClassical tinyQ [1, 0, 0, 1] A4 A4).map (fun r => lsumK (r.map (·.2))) = [1, 1, 1, 1] := by
+  decide +kernel
+
+/-- the hypotheses of the row-sum theorems hold for the fine row 1 (splitting `[1,0,1,0]`) … -/
+example : MMatrixRow (K := ℚ) 1 [(1, 2), (0, -1), (2, -1)] :=
+  ⟨2, [(0, -1), (2, -1)], rfl, by decide +kernel, by decide +kernel⟩
+example : HasStrongNegC (K := ℚ) [1, 0, 1, 0] 1 [(1, 2), (0, -1), (2, -1)] [(1, 2), (0, -1), (2, -1)] :=
+  ⟨0, -1, by decide +kernel, by decide +kernel, by decide +kernel⟩
+
+/-- … so the theorems apply: direct interpolation, fine rows 1 and 3 of `[1,0,1,0]` -/
+example : ∃ row, (direct [1, 0, 1, 0] A4 A4)[1]? = some row ∧ lsumK (row.map (·.2)) = 1 :=
+  direct_rowsum_one_of_MMatrixRow [1, 0, 1, 0] A4 A4 (i := 1) (by decide) (by decide) (by decide +kernel)
+    ⟨2, [(0, -1), (2, -1)], rfl, by decide +kernel, by decide +kernel⟩ (by decide +kernel)
+    ⟨0, -1, by decide +kernel, by decide +kernel, by decide +kernel⟩
+example : ∃ row, (direct [1, 0, 1, 0] A4 A4)[3]? = some row ∧ lsumK (row.map (·.2)) = 1 :=
+  direct_rowsum_one_of_MMatrixRow [1, 0, 1, 0] A4 A4 (i := 3) (by decide) (by decide) (by decide +kernel)
+    ⟨1, [(2, -1)], rfl, by decide +kernel, by decide +kernel⟩ (by decide +kernel)
+    ⟨2, -1, by decide +kernel, by decide +kernel, by decide +kernel⟩
+
+/-- modified classical interpolation, fine rows 1 and 2 of `[1,0,0,1]` (each has a strong fine
+    neighbour whose coarse sum is tiny, so its value moves into the denominator) -/
+example : ∃ row, (modClassical tinyQ [1, 0, 0, 1] A4 A4)[1]? = some row ∧ lsumK (row.map (·.2)) = 1 :=
+  modClassical_rowsum_one_of_MMatrixRow tinyQ [1, 0, 0, 1] A4 A4 (i := 1) (by decide) (by decide)
+    (by decide +kernel) (by decide +kernel)
+    ⟨2, [(0, -1), (2, -1)], rfl, by decide +kernel, by decide +kernel⟩ (by decide +kernel)
+    (by decide +kernel) (by decide +kernel)
+    ⟨0, -1, by decide +kernel, by decide +kernel, by decide +kernel⟩
+example : ∃ row, (modClassical tinyQ [1, 0, 0, 1] A4 A4)[2]? = some row ∧ lsumK (row.map (·.2)) = 1 :=
+  modClassical_rowsum_one_of_MMatrixRow tinyQ [1, 0, 0, 1] A4 A4 (i := 2) (by decide) (by decide)
+    (by decide +kernel) (by decide +kernel)
+    ⟨2, [(1, -1), (3, -1)], rfl, by decide +kernel, by decide +kernel⟩ (by decide +kernel)
+    (by decide +kernel) (by decide +kernel)
+    ⟨3, -1, by decide +kernel, by decide +kernel, by decide +kernel⟩
+/-- the non-M-matrix form: the explicit denominators of `directRow_rowsum_one` are non-zero -/
+example : sumStrongNeg (K := ℚ) [1, 0, 1, 0] 1 [(1, 2), (0, -1), (2, -1)] [(1, 2), (0, -1), (2, -1)] = -2
+    ∧ directDiag (K := ℚ) [1, 0, 1, 0] 1 [(1, 2), (0, -1), (2, -1)] [(1, 2), (0, -1), (2, -1)] = 2 := by
+  decide +kernel
+
+end Examples
+
+/- OPEN (not proved): nothing — all seven targets of C12 are proved above. -/
 end Raptor.C12
